@@ -7,7 +7,7 @@ import itertools
 from ..final import analyse
 from ..kernel import Chooser
 from ..lazy import seq
-from ..seqcheck import explore_task
+from ..seqcheck import explore_task, nest_tasks
 from ..spec import KLASS_FULL, TERMINAL_EVENTS, attempts, delivered_reason, sanitise
 from ..tracelib import split_calls
 
@@ -61,6 +61,8 @@ def tasks(tier):
                    operation=opn, timeline=True)
         out.append({"family": "breaker-events", "cfg": cfg, "entry": e, "bound": 0,
                     "ncalls": 3, "ticks": [0, 2], "weight": 5})
+    out += nest_tasks(RETRY_ENTRIES, "stream-reentrant", ["ok", "x:T", "r:T", "x:U", "abort"],
+                      handler="call", timeline=True, operation="opname")
     return out
 
 
